@@ -8,6 +8,7 @@ import Driver.Terminfo
 import Driver.Lookup
 import Driver.Wasm
 import Driver.Parse
+import Driver.Race
 /-
 Line-protocol driver: one case per line, first token selects the engine, one reply line per case.
 Stateless across lines (a line is a complete case = a replay).  Core-only imports so that it links.
@@ -32,6 +33,7 @@ def dispatch (env : Env) (eng rest : String) : String :=
   | "parsechunk" => Parse.run env rest
   | "keytable" => Parse.runKeyTable env rest
   | "keyseq" => Parse.runKeySeq env rest
+  | "race" => Race.run rest
   | _ => "bad-engine"
 
 def handle (env : Env) (line : String) : String :=
